@@ -16,12 +16,14 @@ def run(cmd, cwd, timeout=3000):
 def main():
     ID, k, props = sys.argv[1], sys.argv[2], sys.argv[3]
     flags = sys.argv[4] if len(sys.argv) > 4 else ''      # extra cargo flags for the demonstration (e.g. --release --features checks)
-    src = '/tmp/mut/%s/out/m%s' % (ID, k)
-    wt = '/tmp/confirm/wt-%s-m%s' % (ID, k)
+    root = os.environ.get('MUT_ROOT', '/tmp/mut')
+    tag = os.environ.get('SEED_TAG', 'm')      # round 2 seeds are stored as <ID>-r2m<k>
+    src = '%s/%s/out/m%s' % (root, ID, k)
+    wt = '/tmp/confirm/wt-%s-%s%s' % (ID, os.environ.get('SEED_TAG', 'm'), k)
     os.makedirs('/tmp/confirm', exist_ok=True)
     subprocess.run(['git', '-C', '/repo', 'worktree', 'remove', '--force', wt], capture_output=True)
     subprocess.run(['git', '-C', '/repo', 'worktree', 'add', '-q', '--detach', wt, 'HEAD'], check=True)
-    meta = dict(id='%s-m%s' % (ID, k), property=ID, source='sub-agent given only the property text and a scratch worktree')
+    meta = dict(id='%s-%s%s' % (ID, tag, k), property=ID, source='sub-agent given only the property text and a scratch worktree')
     try:
         shutil.copy(os.path.join(src, 'demo.rs'), os.path.join(wt, 'tests', 'seed_demo.rs'))
         rc0, out0 = run('cargo test --offline %s --test seed_demo' % flags, wt)
